@@ -4,6 +4,7 @@ import (
 	"bytes"
 	"encoding/gob"
 	"fmt"
+	"math"
 	"math/big"
 	"math/rand"
 	"time"
@@ -50,8 +51,9 @@ func (s *badgerStore) Close() error {
 
 func (s *badgerStore) CheckAndSaveNonce(ID string, nonce int64) error {
 	// If nonceExpire is set, nonce should be within nonceExpire of now.
+	now := time.Now()
 	if s.nonceExpire > 0 {
-		if nonce <= time.Now().Add(-s.nonceExpire).UnixNano() {
+		if nonce <= now.Add(-s.nonceExpire).UnixNano() {
 			// Nonce is too old
 			return store.ErrInvalidNonce
 		}
@@ -68,7 +70,18 @@ func (s *badgerStore) CheckAndSaveNonce(ID string, nonce int64) error {
 		}
 
 		if s.nonceExpire > 0 {
-			return setExpiringItem(txn, key, &nonce, s.nonceExpire)
+			// The entry must outlive the nonce's own freshness window: a nonce
+			// dated ahead of our clock stays acceptable for that much longer,
+			// so it has to be remembered for that much longer too.
+			// (Badger expires entries at whole seconds, rounded down.)
+			ttl := s.nonceExpire + time.Second
+			if ahead := time.Unix(0, nonce).Sub(now); ahead > 0 {
+				if ahead > math.MaxInt64-ttl {
+					return setItem(txn, key, &nonce) // Too far ahead to expire
+				}
+				ttl += ahead
+			}
+			return setExpiringItem(txn, key, &nonce, ttl)
 		}
 		return setItem(txn, key, &nonce)
 	})
